@@ -999,6 +999,20 @@ def translate() -> tuple[str, dict]:
     # normalisation: calls of ordinary methods of the class are replaced by their bodies
     for name in ('make_tempfile', '__enter__', '__exit__'):
         fns[name] = inline_helpers(fns[name], fns)
+    # a call that could not be inlined hides code from the analyses of make_tempfile / __enter__ (an open with another
+    # mode, an assignment to an attribute): fail closed.  (__exit__: every call is judged by _ExitTr.call.)
+    mod_funcs = {n.name for n in tree.body if isinstance(n, (ast.FunctionDef, ast.AsyncFunctionDef))}
+    for name in ('make_tempfile', '__enter__'):
+        for c in ast.walk(fns[name]):
+            if not isinstance(c, ast.Call):
+                continue
+            k = _key(c.func) or ''
+            if k.startswith('self.') and k[5:] in fns and not (name == '__enter__' and k == 'self.make_tempfile'):
+                raise TranslateError(f'AtomicWriter.{name}: the call of the method `{k}` could not be inlined '
+                                     f'(line {c.lineno}): its body is hidden from the analysis')
+            if isinstance(c.func, ast.Name) and c.func.id in mod_funcs:
+                raise TranslateError(f'AtomicWriter.{name}: calls the module-level function `{c.func.id}` '
+                                     f'(line {c.lineno}): its body is not analysed')
     # ... and single-assignment locals of make_tempfile by their defining expressions
     fns['make_tempfile'] = inline_locals(fns['make_tempfile'])
     prog, slot_names, attr_slots = _exit_prog_attrs(fns['__exit__'])
